@@ -28,7 +28,11 @@ ASSUMPTIONS = [
 
 
 def plan(tier, seed):
-    return ac.std_plan(tier, quick_budget=75, thorough_budget=700)
+    p = ac.std_plan(tier, quick_budget=75, thorough_budget=700)
+    if tier == "thorough":   # the repository's own suite (test_fast_gamma, test_soft_and_fast) under M-PROG / M-PART / M-DIS
+        p["shards"].append({"env": {}, "params": {"suite": "prog,part,dis"}})
+        p["timeout"] = 3000
+    return p
 
 
 _installed = {}
@@ -188,6 +192,10 @@ FAMS = ["longoverlap", "longoverlap", "nested", "nested", "grid", "touching", "i
 
 def run(ctx):
     _install(ctx)
+    if ctx.params.get("suite"):
+        from ..suite import run_suite_under_monitors
+        run_suite_under_monitors(ctx, ctx.params["suite"])
+        return
     rng = ctx.rng
     dspecs = cases.gen_pool_specs(rng, ctx.scale(10, 24))
     dspecs += [{"kind": "positional", "delta": 1.0},
